@@ -1,7 +1,9 @@
 import DaskModel.DriverLib
 import DaskModel.Model.Slice1D
+import DaskModel.Model.SetItem
 open Dask
 open Dask.Slice1D
+open Dask.SetItem
 
 /-! Line-protocol handlers of group `slicing` (C20, C21, C26, C29). -/
 
@@ -117,7 +119,65 @@ def hPosify : Handler := handler fun args =>
     if checkIntOOB n i then pure raised else pure (ok [.int (posifyInt n i)])
   | _ => none
 
+/-! ### C21 -/
+
+/-- `(parseslice size (slice))` ↦ `(ok (slice) implied reversed)` | `(raised)` -/
+def hParseSlice : Handler := handler fun args =>
+  match args with
+  | [n, s] => do
+    let n ← n.toNat?
+    let s ← toSlice? s
+    match parseSlice n s with
+    | some p => pure (ok [ofSlice p.index, .int p.implied, SExp.ofBool p.reversed])
+    | none => pure raised
+  | _ => none
+
+def ofBlockSlice : Option BlockSlice → SExp
+  | none => .sym "none"
+  | some b => .list [.int b.bstart, .int b.bstop, .int b.size, .int b.npre]
+
+/-- `(blockslices (lengths…) start stop step)` ↦ per block `none` | `(bstart bstop size npre)` -/
+def hBlockSlices : Handler := handler fun args =>
+  match args with
+  | [ls, a, b, c] => do
+    let ls ← ls.toNats?
+    pure (.list ((axisPlanSlice ls (← a.toInt?) (← b.toInt?) (← c.toInt?)).map ofBlockSlice))
+  | _ => none
+
+/-- `(blockint (lengths…) (index…))` ↦ per block `((block index…) (value positions…))` -/
+def hBlockInt : Handler := handler fun args =>
+  match args with
+  | [ls, idx] => do
+    let ls ← ls.toNats?
+    let idx ← idx.toInts?
+    pure (.list ((locations ls).map fun (l0, l1) =>
+      .list [SExp.ofInts (blockIndexInt idx l0 l1), SExp.ofNats (valueIndicesInt idx l0 l1)]))
+  | _ => none
+
+/-- `(blockbool (lengths…) (mask as 0/1 …))` ↦ per block `((mask…) size npre)` -/
+def hBlockBool : Handler := handler fun args =>
+  match args with
+  | [ls, m] => do
+    let ls ← ls.toNats?
+    let m ← m.toNats?
+    let mask := m.map (fun v => decide (v ≠ 0))
+    pure (.list ((locations ls).map fun (l0, l1) =>
+      let (blk, size, npre) := blockBool mask l0.toNat l1.toNat
+      .list [SExp.ofNats (blk.map fun b => if b then 1 else 0), SExp.ofNat size, SExp.ofNat npre]))
+  | _ => none
+
+/-- `(revvalue size a b)` ↦ `(ok (slice))` -/
+def hRevValue : Handler := handler fun args =>
+  match args with
+  | [n, a, b] => do
+    match reverseValueSlice (← n.toNat?) (← a.toInt?) (← b.toInt?) with
+    | some s => pure (ok [ofSlice s])
+    | none => pure raised
+  | _ => none
+
 def table : List (String × Handler) := [
+  ("parseslice", hParseSlice), ("blockslices", hBlockSlices), ("blockint", hBlockInt),
+  ("blockbool", hBlockBool), ("revvalue", hRevValue),
   ("pyindices", hPyIndices), ("pyslice", hPySlice), ("pymod", hPyMod), ("normslice", hNormSlice),
   ("slice1d", hSlice1d), ("slice1dint", hSlice1dInt), ("newblockdim", hNewBlockdim),
   ("planden", hPlanDen), ("posify", hPosify)]
